@@ -290,20 +290,32 @@ func findIssue(list []core.ZodIssue, code core.IssueCode) (core.ZodIssue, bool) 
 }
 
 func runCell(lf leaf, w wrapper, mask int) (winner string, issue core.ZodIssue, found bool) {
+	return runCellSilent(lf, w, mask, 0)
+}
+
+// runCellSilent: the sources in `silent` (a subset of mask) are configured with a map that answers ""
+// (it declines the issue), so the next source has to be asked.
+func runCellSilent(lf leaf, w wrapper, mask, silent int) (winner string, issue core.ZodIssue, found bool) {
+	tag := func(bit int, t string) core.ZodErrorMap {
+		if silent&bit != 0 {
+			return constant("")
+		}
+		return constant(t)
+	}
 	var c, s []any
 	if mask&srcC != 0 {
-		c = []any{"CHK"}
+		c = []any{(func(core.ZodRawIssue) string)(tag(srcC, "CHK"))}
 	}
 	if mask&srcS != 0 {
-		s = []any{"SCH"}
+		s = []any{(func(core.ZodRawIssue) string)(tag(srcS, "SCH"))}
 	}
 	core.SetConfig(nil)
 	cfg := &core.ZodConfig{}
 	if mask&srcG != 0 {
-		cfg.CustomError = constant("CUS")
+		cfg.CustomError = tag(srcG, "CUS")
 	}
 	if mask&srcL != 0 {
-		cfg.LocaleError = constant("LOC")
+		cfg.LocaleError = tag(srcL, "LOC")
 	}
 	core.SetConfig(cfg)
 	defer core.SetConfig(nil)
@@ -312,7 +324,7 @@ func runCell(lf leaf, w wrapper, mask int) (winner string, issue core.ZodIssue, 
 	if p := hx.Safely(func() {
 		schema := w.wrap(lf.build(c, s))
 		if mask&srcP != 0 {
-			_, err = schema.ParseAny(w.in(lf.input), &core.ParseContext{Error: constant("CTX")})
+			_, err = schema.ParseAny(w.in(lf.input), &core.ParseContext{Error: tag(srcP, "CTX")})
 		} else {
 			_, err = schema.ParseAny(w.in(lf.input))
 		}
@@ -502,6 +514,51 @@ func run(c hx.Config) error {
 				if found && mask == 0 {
 					raw := rawFromIssue(is, w.in(lf.input))
 					catalogue[kindKey(raw.Code, raw.Properties)] = raw
+				}
+			}
+		}
+	}
+
+	// "first NON-EMPTY": a configured source that answers "" must be passed over.  Every site of the one-level
+	// catalogue, every configuration given as message FUNCTIONS, every subset of it silenced (thorough: all; quick: one in four cells).
+	for li, lf := range lvs {
+		for wi, w := range wrs {
+			if strings.Contains(w.id, ">") {
+				continue
+			}
+			if base, _, _ := runCell(lf, w, 0); base == "panic" {
+				continue
+			}
+			appl := srcP | srcG | srcL
+			if lf.chk {
+				appl |= srcC
+			}
+			if lf.sch {
+				appl |= srcS
+			}
+			site := lf.id + "@" + w.id
+			n := 0
+			for mask := 1; mask < 32; mask++ {
+				if mask&^appl != 0 {
+					continue
+				}
+				for silent := 0; silent < 32; silent++ {
+					if silent&^mask != 0 {
+						continue
+					}
+					n++
+					// the cells {c,x} with c silent define the table's passesSilentCheck column: always run them
+					defining := silent == srcC && mask&srcC != 0 && mask&(mask-1) != 0 && (mask&^srcC)&((mask&^srcC)-1) == 0
+					if !c.Thorough() && !defining && (n+li+wi)%4 != 0 {
+						continue
+					}
+					winner, _, _ := runCellSilent(lf, w, mask, silent)
+					o.Emit(fmt.Sprintf("c18 silent %s %s %s %s %s %s # %s with S = %s; the sources in the last column answer \"\"",
+						site, lf.kind, w.id, maskStr(appl), maskStr(mask), maskStr(silent), w.desc, lf.repro), winner)
+					o.Count("silent:" + lf.kind)
+					if defining {
+						wiring = append(wiring, fmt.Sprintf("%s\t%s\t%s\t%s\t%s\t%s\t%s", site, lf.kind, lf.raiser, w.id, maskStr(appl), "!"+maskStr(mask), winner))
+					}
 				}
 			}
 		}
